@@ -513,6 +513,13 @@ func runC19(e *env) error {
 			g = append(g, "// goverter:context "+rng.Pick(ra, []string{"ctx", "a b", "", "x", " y "}))
 		}
 		src := "package p\n\n" + strings.Join(g, "\n") + "\nfunc F(ctx int, x int) int { return 0 }\n"
+		// a METHOD of the same name with its own doc comment, before or after the function: its lines belong to the method
+		switch ra.Intn(6) {
+		case 0:
+			src += "\ntype T struct{}\n\n// goverter:context y\n// goverter:context x\nfunc (T) F(y int, x int) int { return 0 }\n"
+		case 1:
+			src = "package p\n\ntype T struct{}\n\n// goverter:context y\n// goverter:context x\nfunc (T) F(y int, x int) int { return 0 }\n\n" + strings.TrimPrefix(src, "package p\n\n")
+		}
 		fset := token.NewFileSet()
 		f, err := parser.ParseFile(fset, "f.go", src, parser.ParseComments)
 		if err != nil {
